@@ -141,6 +141,18 @@ def cases(tier, seed):
                                 if key not in seen:
                                     seen.add(key)
                                     out.append(cfgE)
+        # [F] tiny cotangents (gradients must be exactly linear in the incoming cotangent)
+        for fam in FAMS:
+            for m in (["rk4", "rk45"] if quick else list(METHODS)):
+                for g in ["inc4", "rag7-dec"]:
+                    for cot in ["dense", "last"]:
+                        for od in ORDERS:
+                            cfgF = _case(fam, DEFAULT_REP[fam], m, "inherit", g, "y0+p+w+ts", cot, od, pl, seed)
+                            cfgF["cscale"] = 1e-10
+                            key = tuple(sorted(cfgF.items()))
+                            if key not in seen:
+                                seen.add(key)
+                                out.append(cfgF)
         # [D] grids
         famD = ["tdecay"] if quick else ["tdecay", "logistic"]
         for fam in famD:
@@ -372,6 +384,11 @@ def _experiment(cfg, v, m):
     yt = o.value
     rows = [q[::m] for q in yt] if tuple_state else [yt[::m]]
     L = sum((r * ct).sum() for r, ct in zip(rows, cots))
+    # gradients are linear in the cotangent: the loss is scaled by `cscale` (e.g. 1e-10) before and the gradients
+    # are scaled back after the library's backward pass; nothing else changes
+    cs = float(cfg.get("cscale", 1.0))
+    if cs != 1.0:
+        L = L * cs
     ins = {}
     if "y0" in rgset:
         if tuple_state:
@@ -394,7 +411,7 @@ def _experiment(cfg, v, m):
     if o.exc is not None:
         return {"viol": V("exception:%s" % o.exc_sig, {"message": str(o.exc)[:300]},
                           stage="backward" if order == "1" else "backward-create_graph")}
-    g1 = dict(zip(names, o.value))
+    g1 = dict(zip(names, [None if t is None else t / cs for t in o.value] if cs != 1.0 else o.value))
     res = {"g1": {x: (None if t is None else t.detach().clone()) for x, t in g1.items()}, "names": names,
            "rows": [r.detach().clone() for r in rows]}
     if order == "2":
